@@ -226,9 +226,8 @@ TRIG_UNITS_THOROUGH = ["degrees", "radians", "revolutions", "milliradians"]
 TRIG_REPS_QUICK = ["double", "float", "int32_t"]
 TRIG_REPS_THOROUGH = ["double", "float", "int32_t", "int64_t", "int16_t", "uint8_t", "long double"]
 
-MIX_PAIRS_QUICK = [("feet", "inches"), ("inches", "feet"), ("meters", "feet")]
-MIX_PAIRS_THOROUGH = MIX_PAIRS_QUICK + [("kilometers", "meters"), ("yards", "feet"), ("miles", "meters"), ("feet", "feet"),
-                                        ("millimeters", "inches")]
+MIX_PAIRS_QUICK = [("feet", "inches"), ("inches", "feet"), ("meters", "feet"), ("feet", "feet")]
+MIX_PAIRS_THOROUGH = MIX_PAIRS_QUICK + [("kilometers", "meters"), ("yards", "feet"), ("miles", "meters"), ("millimeters", "inches")]
 MIX_REPS_QUICK = ["double", "float", "int32_t"]
 MIX_REPS_THOROUGH = ["double", "float", "int32_t", "int64_t", "int16_t", "long double"]
 
@@ -292,6 +291,9 @@ class C15(F.Check):
         "common units come from an independent Fraction model (gcd of rational scales); only pairs with rational ratios are used "
         "for the mixed-unit functions; clamp is claimed for operand triples whose pairwise common units coincide with the "
         "three-way common unit (the library compares v<lo and hi<v in the *pairwise* common unit)",
+        "min/max/clamp on floating reps: 'equals the std function' is read on values for non-NaN operands (result bits equal, or "
+        "numerically equal: which of -0.0/+0.0 is returned is not claimed; same-unit calls use Quantity's hidden friends, which "
+        "prefer the other operand than std::max on ties); NaN operands are outside (std::min/max require a strict weak order)",
         "integral reps of mixed-unit functions: 'the reference on commonly scaled operands does not trap => au does not trap and "
         "returns the same value' (au may evaluate fewer conversions than the reference)",
         "SMT-LIB FP has one NaN: floating results that went through arithmetic (conversion, rounding, libm) are compared "
@@ -669,6 +671,12 @@ class C15(F.Check):
         self.o_mixed(K)
         self.o_unary(K)
         self.o_closed(K)
+        if getattr(self, "tie_observed", 0):
+            self.notes.append("observation: for identical Quantity types min/max resolve to Quantity's hidden friends (min: b < a ? b : a, "
+                              "max: b < a ? a : b), so max(feet(-0.0), feet(+0.0)) is +0.0 where std::max(-0.0, +0.0) is -0.0, and with a NaN "
+                              "second operand max returns the NaN where std::max returns the first operand; mixed-unit calls go through "
+                              "std::max on the common type and behave like std::max.  Values are equal; NaN operands are outside "
+                              "(%d stretch witnesses observe_tie_choice:*)" % self.tie_observed)
         self.extra_cov["obligation_families"] = self.family_counts()
         return self.obs
 
@@ -1072,12 +1080,22 @@ class C15(F.Check):
                     vs = [("a", so), ("b", so)]
                     cvs = (c1, c2) if which == "c" else (p1, p2)
 
-                def f(K, *v, a=a, r=r, cvs=cvs, isf=isf, ret_ct=ret_ct):
+                order = fn_name in ("min", "max", "clamp")
+
+                def f(K, *v, a=a, r=r, cvs=cvs, isf=isf, ret_ct=ret_ct, order=order):
                     e = K[a](*v)
                     cs = [K[c](t) for c, t in zip(cvs, v)]
                     s = K[r](*[c.ret for c in cs])
                     rub = T.or_(s.ub, *[c.ub for c in cs])
                     eqv = same(ret_ct, e.ret, s.ret)      # operands went through a conversion (arithmetic): NaN bits not modelled
+                    if isf and order:
+                        # min/max/clamp select one of the operands: 'equal to the std function' is read on *values*: which of two
+                        # equivalent operands (-0.0 / +0.0) is returned is not claimed, and NaN operands are outside (std::min/max
+                        # require a strict weak order).  Same-unit calls resolve to Quantity's hidden friends ('min prefers a, max
+                        # prefers b'), which differ from std::max exactly there.
+                        fmt = F.FMT_OF[ret_ct]
+                        pre = T.not_(T.or_(*[T.fp_isnan(fmt, c.ret) for c in cs]))
+                        return pre, T.and_(T.eq(e.ub, rub), T.or_(rub, eqv, T.fp_cmp("oeq", fmt, e.ret, s.ret)))
                     if isf:
                         return T.TRUE, T.and_(T.eq(e.ub, rub), T.or_(rub, eqv))
                     return T.not_(rub), T.and_(T.not_(e.ub), eqv)
@@ -1086,6 +1104,15 @@ class C15(F.Check):
                         % (fn_name, "the raw expression (v<lo)?lo:(hi<v)?hi:v" if fn_name == "clamp" else "std::" + fn_name)
                         + ("" if isf else " (whenever the reference does not trap)"),
                         routes=F.FP_ROUTES if isf else F.INT_ROUTES)
+                if isf and fn_name == "max" and inst["u1"] == inst["u2"]:     # (the friend min coincides with std::min)
+                    def fo(K, x, y, a=a, r=r, ret_ct=ret_ct):
+                        fmt = F.FMT_OF[ret_ct]
+                        e, s = K[a](x, y), K[r](x, y)
+                        return T.not_(T.or_(T.fp_isnan(fmt, x), T.fp_isnan(fmt, y))), T.ne(e.ret, s.ret)
+                    self.ob("observe_tie_choice:%s_%s" % (fn_name, tag), vs, fo, [a, r], k2,
+                            "observation (not a claim): same-unit %s returns the other one of two equivalent operands than std::%s "
+                            "(-0.0 / +0.0)" % (fn_name, fn_name), routes=F.FP_ROUTES, kind="stretch", expect="sat")
+                    self.tie_observed = getattr(self, "tie_observed", 0) + 1
                 if r not in seen_ref:
                     seen_ref.add(r)
                     if fn_name in ("min", "max", "clamp"):
